@@ -589,6 +589,11 @@ func (g *sqlGen) payload() *Decl {
 			d.Fields = append(d.Fields, &Field{Name: "Minus", Type: Basic("int"), Tag: `json:"-,"`}) // the key is "-"
 			g.p.Feature("sql:jsonb-field-with-key-dash")
 		}
+		if g.pr(0.2) {
+			// encoding/json writes a byte slice as a base64 string (null when nil), not as an array of numbers
+			d.Fields = append(d.Fields, &Field{Name: "Raw", Type: Slice(Basic(g.pick("byte", "uint8")))})
+			g.p.Feature("sql:jsonb-field-of-bytes")
+		}
 		for i := 0; i < 1+g.r.Intn(4); i++ {
 			f := &Field{Name: fmt.Sprintf("P%d", i), Type: leaf()}
 			if g.pr(0.3) {
